@@ -530,7 +530,10 @@ def check_eol_bom_invariant(c):
                 res[(eol, bom, binary)] = r
     vals = list(res.values())
     if any(v != vals[0] for v in vals):
-        return {"variants": {repr(kk): repr(v)[:200] for kk, v in res.items()}}
+        tv = [v for kk, v in res.items() if not kk[2]]
+        bv = [v for kk, v in res.items() if kk[2]]
+        return {"variants": {repr(kk): repr(v)[:200] for kk, v in res.items()},
+                "text_variants_agree": all(v == tv[0] for v in tv), "binary_variants_agree": all(v == bv[0] for v in bv)}
     return None
 
 
@@ -620,11 +623,15 @@ def cls_binary_unicode_blank(c, detail=None):
     hdr, rows = padded_table(c)
     if "smode" in c:  # evaluator strip_field: strip_field=True, read mode `bin`
         written = ([hdr] if c["smode"] == "file" else []) + rows
+        if isinstance(detail, dict) and detail.get("is_bytes_strip_table") is not True:
+            return False  # something else than "stripped with bytes.strip()" went wrong
         return bool(c.get("bin")) and any(uni_edge(x) for r in written for x in r)
     if "mode" in c and (c.get("sf") or c.get("sl")):  # evaluator eol_bom_invariant: always compares binary with text
         bm = build_mode(c)
         if bm is None:
             return False
+        if isinstance(detail, dict) and not (detail.get("text_variants_agree") is True and detail.get("binary_variants_agree") is True):
+            return False  # the finding separates binary from text mode only
         written = ([hdr] if bm[0] else []) + rows
         if c.get("sf") and any(uni_edge(x) for r in written for x in r):
             return True
@@ -973,33 +980,48 @@ NATIVE_MODES = ["both", "names", "file", "default"]
 
 
 def native_valid(c):
-    return table_valid(dict(c, mode="both", bin=False)) and c.get("nmode") in NATIVE_MODES and c.get("via") in ("save_csv", "writer")
+    return table_valid(dict(c, mode="both", bin=False)) and c.get("nmode") in NATIVE_MODES and c.get("via") in ("save_csv", "writer") and c.get("lead", 0) in (0, 1, 2)
+
+
+def add_leading_blank_lines(p, c):
+    """`lead` blank lines in front of the first line (after the BOM)"""
+    k = c.get("lead", 0)
+    if k:
+        b = open(p, "rb").read()
+        sig = b"\xef\xbb\xbf" if b.startswith(b"\xef\xbb\xbf") else b""
+        open(p, "wb").write(sig + c["eol"].encode() * k + b[len(sig):])
+    return p
 
 
 def check_native_agrees(c):
     """C14_native_*: on a saved table, load_native_csv yields the records of load_csv (surplus cells
-    under the key None apart) and both are the table"""
+    under the key None apart) and both are the table - also when blank lines precede the first line
+    (`lead`), except that csv.DictReader, left to find the field names itself (column_names=None), takes
+    the first record even when it is the empty one: every non-empty line, the header included, then
+    comes back as {None: cells} (C14_native_leading_blank_cex) while load_csv still yields the table"""
     load_csv, save_csv, load_native_csv, load_simple_csv = impl()
     d, hdr, rows, m = c["d"], c["hdr"], c["rows"], c["nmode"]
     data = [r for r in rows if r]
     cc = dict(c, bin=False)
+    _mk = make_table_file
+    make_table_file_ = lambda cc_, wh: add_leading_blank_lines(_mk(cc_, wh), c)
     if m == "both":
-        p = make_table_file(cc, True)
+        p = make_table_file_(cc, True)
         nk = dict(column_names=list(hdr), contains_header=True)
         lk = dict(column_names=list(hdr), header_is_mandatory=True)
     elif m == "names":
         first = first_data_row(rows)
         if first is None or all(n in first for n in hdr):
             return None
-        p = make_table_file(cc, False)
+        p = make_table_file_(cc, False)
         nk = dict(column_names=list(hdr), contains_header=False)
         lk = dict(column_names=list(hdr))
     elif m == "file":
-        p = make_table_file(cc, True)
+        p = make_table_file_(cc, True)
         nk = dict(contains_header=False)
         lk = dict(header_is_mandatory=True)
     else:
-        p = make_table_file(cc, True)
+        p = make_table_file_(cc, True)
         nk = dict()
         lk = dict(header_is_mandatory=True)
     a = core.call(lambda: [dict(x) for x in load_native_csv(p, delimiter=d, **nk)])
@@ -1008,6 +1030,11 @@ def check_native_agrees(c):
     bad = {"native": repr(a)[:300], "load_csv": repr(b)[:300], "want": repr(want)[:300], "native_kwargs": repr(nk), "file": repr(open(p, "rb").read())[:300]}
     if a[0] != "ok" or b[0] != "ok":
         return bad
+    if c.get("lead", 0) and m in ("file", "default"):
+        # the standard DictReader's reading of a file that starts with a blank line
+        if a[1] != [{None: list(r)} for r in [hdr] + data] or b[1] != want:
+            return dict(bad, leading_blank_lines=c["lead"])
+        return None
     for x, r in zip(a[1], data):
         rest = x.pop(None, None)
         if rest != (r[len(hdr):] or None):
@@ -1123,7 +1150,15 @@ def check_strip_field(c):
         want = [rec_of(list(range(len(srows[0]))), row) for row in srows]
     want = encode_expected(want, binary)
     if r != ("ok", want):
-        return {"got": repr(r)[:300], "want": repr(want)[:300], "kwargs": repr(kw), "file": repr(open(p, "rb").read())[:300]}
+        bad = {"got": repr(r)[:300], "want": repr(want)[:300], "kwargs": repr(kw), "file": repr(open(p, "rb").read())[:300]}
+        if binary:
+            # what C14-g describes, and nothing else: the table of bytes.strip()-ed encoded cells
+            e = lambda x: x.encode("utf-8").strip()
+            bhdr = [e(x) for x in hdr]
+            brows = [[e(x) for x in r_] for r_ in rows if r_]
+            alt = [rec_of(bhdr if c["smode"] == "file" else list(range(len(brows[0]))), row) for row in brows]
+            bad["is_bytes_strip_table"] = r == ("ok", alt)
+        return bad
     return None
 
 
@@ -1282,8 +1317,9 @@ def run_reader(ctx, cases, scases, rcases):
     rng = ctx.rng("native_agrees")
     tcases = []
     for i, c in enumerate(rcases):
-        tcases.append({k: c[k] for k in ("d", "hdr", "rows", "eol", "bom", "via", "trim")} | {"nmode": NATIVE_MODES[i % 4]})
+        tcases.append({k: c[k] for k in ("d", "hdr", "rows", "eol", "bom", "via", "trim")} | {"nmode": NATIVE_MODES[i % 4], "lead": rng.choice([0, 0, 0, 1, 2])})
     ctx.evaluate("native_agrees", tcases, check_native_agrees, in_known=known_class, nontrivial=lambda c: bool(c["rows"]))
+    ctx.extra["native_leading_blank"] = {m: sum(1 for c in tcases if c["lead"] and c["nmode"] == m) for m in NATIVE_MODES}
 
     # load_simple_csv: tables whose cells need no quoting, every header mode, strip options too
     rng = ctx.rng("simple_agrees")
